@@ -532,6 +532,7 @@ class Render:
         self.n = naming
         self.qual = qual or (lambda b: None)    # binder -> namespace prefix ("m." / "a.b.") or None
         self.fn_parens = fn_parens              # every function literal inside that many redundant parentheses
+        self.sugar = False                      # calls with arguments as arrow calls `a -> f(b)`, call statements as `f' a, b`
 
     def name(self, b):
         q = self.qual(b)
@@ -554,6 +555,8 @@ class Render:
         if k == "not":
             return "(not %s)" % self.e(x[1])
         if k == "call":
+            if self.sugar and x[2] and x[1][0] == "var":
+                return "(%s -> %s(%s))" % (self.e(x[2][0]), self.e(x[1]), ", ".join(self.e(a) for a in x[2][1:]))
             return "%s(%s)" % (self.e(x[1]), ", ".join(self.e(a) for a in x[2]))
         if k == "field":
             return "%s.%s" % (self.e(x[1]), x[2])
@@ -618,6 +621,9 @@ class Render:
         if k == "print":
             return "%sprint(%s)\n" % (p, self.e(x[1]))
         if k == "expr":
+            if self.sugar and x[1][0] == "call" and x[1][1][0] == "var" and x[1][2]:
+                # prime call: `f' a, b`
+                return "%s%s' %s\n" % (p, self.e(x[1][1]), ", ".join(self.e(a) for a in x[1][2]))
             return "%s%s\n" % (p, self.e(x[1]))
         if k == "raw":
             return "%s%s\n" % (p, x[1])
